@@ -195,6 +195,22 @@ def error_class(msg):
     return None
 
 
+def repair_flags():
+    """the repairs the code under test contains, as the generator read them off the source (Gen/ConfigSites.v); also exported to the
+    harness (environment variable CFG_REPAIR_FLAGS), whose shadow construction must make the same calls as the code"""
+    import os
+    import re
+    from vlib.common import COQ
+    src = open(os.path.join(COQ, "Gen", "ConfigSites.v")).read()
+    fl = {}
+    for coqname, name in (("cfg_checks_external_range", "external_range"), ("cfg_checks_total_reflection", "total_reflection"),
+                          ("searches_cannot_fail", "searches_cannot_fail"), ("cfg_validates_crystal", "validates_crystal")):
+        m = re.search(r"Definition " + coqname + r" : bool := (true|false)\.", src)
+        fl[name] = bool(m and m.group(1) == "true")
+    os.environ["CFG_REPAIR_FLAGS"] = ",".join(k for k, v in fl.items() if v)
+    return fl
+
+
 def real_class(step):
     """class label of a harness step / real outcome in the model's vocabulary (coarse: ok / err:<kind> / panic:<file>)"""
     c = step["class"]
@@ -202,8 +218,10 @@ def real_class(step):
         return "ok"
     if c == "err":
         m = step.get("msg", "")
-        if m == "auto theta with poling":      # the shadow construction's own label for the rule it replays
+        if m == "auto theta with poling":      # the shadow construction's own labels for the rules it replays
             return "err:auto_theta_with_poling"
+        if m == "total reflection":
+            return "err:total_reflection"
         return error_class(m) or ("err:?" + m[:40])
     return "panic@" + step.get("loc", "?").rsplit(":", 1)[0]
 
